@@ -22,7 +22,17 @@ fn main() {
     let thorough = args[4] == "thorough";
     let replay = args.get(5).map(|s| s.as_str());
     // keep panic messages of caught panics out of stderr
-    std::panic::set_hook(Box::new(|_| {}));
+    let main_thread = std::thread::current().id();
+    std::panic::set_hook(Box::new(move |info| {
+        // a panic of the harness itself (main thread) is reported; caught ones in worker threads are not
+        if std::thread::current().id() == main_thread {
+            if std::env::var("MVH_PANIC_TRACE").is_ok() {
+                eprintln!("mvh: {info}");
+            }
+        } else if let Ok(mut l) = util::LAST_PANIC.lock() {
+            *l = info.to_string();
+        }
+    }));
     let mut out = util::Out::new(dir);
     match stream {
         "hash" => streams::hash::run(&mut out, seed, thorough, replay),
